@@ -31,6 +31,8 @@ let rec parse_block (toks : string list) (stop : string -> bool) : op list * str
       | 'm' -> (OTlsMem (num arg), rest)
       | 'r' -> (OTlsRem (num arg), rest)
       | 'e' -> (OEmit (num arg), rest)
+      | 'p' -> (OPub (num arg), rest)           (* p0 = new_root result, p1 = new_raw result *)
+      | 'h' -> (OAlloc true, rest)              (* h<j>: managed object rooted ONLY through the thread's TLS (key __t<j> / t<j>) *)
       | 'w' -> let (k, n) = pair arg in (OWork (k, n), rest)
       | 'o' -> (OObs, rest)
       | 'y' -> (OYield, rest)
@@ -77,6 +79,7 @@ let oids me l =
       (if i o <> me then "!" ^ string_of_int (i o) ^ "." else "") ^ string_of_int (i s)) l) ^ "}"
 let ev_s me = function
   | EvEmit v -> "e" ^ string_of_int (i v)
+  | EvPub (k, sn) -> "p" ^ string_of_int (i k) ^ "." ^ string_of_int (i sn)
   | EvWork (k, n) -> "w" ^ string_of_int (i k) ^ "." ^ string_of_int (i n)
   | EvGet (k, v) -> "g" ^ string_of_int (i k) ^ "=" ^ string_of_int (i v)
   | EvMem (k, b) -> "m" ^ string_of_int (i k) ^ "=" ^ (if b then "1" else "0")
